@@ -362,6 +362,12 @@ def _harness_copy_path(src, prop, inst):
     return os.path.join(os.path.dirname(os.path.join(src, owner)), modname + ".rs")
 
 
+def txt_of(txt, tname):
+    """the failure section of one test in cargo-test output"""
+    m = re.search(r"---- \S*%s stdout ----\n(.*?)(?:\n---- |\nfailures:|\Z)" % re.escape(tname), txt, re.S)
+    return m.group(1) if m else ""
+
+
 def native_replay_batch(src, workdir, prop, tests, release, tag="batch"):
     """tests: list of (inst, test_name, test_src). Appends the generated unit tests to the harness copies and
     runs them natively (real, unstubbed functions) in ONE test build. This is what `cargo kani playback` does,
@@ -404,7 +410,12 @@ def native_replay_batch(src, workdir, prop, tests, release, tag="batch"):
         elif m.group(1) == "FAILED":
             pm = re.search(r"---- \S*%s stdout ----\n(.*?)(?:\nnote:|\n\n|\Z)" % re.escape(tname), txt, re.S)
             msg = pm.group(1).strip() if pm else "test failed"
-            out[tname] = ("reproduced", msg[:600])
+            # the playback harness ran PAST the failing check (it asked for more nondeterministic values than the solver's
+            # trace contains) or stopped before consuming all of them: the native run diverged from the counter-example,
+            # which is NOT a reproduction
+            diverged = "Not enough det vals found" in txt_of(txt, tname) or "still these concrete values left over" in txt_of(txt, tname)
+            out[tname] = ("not_reproduced", "native run diverged from the solver trace (playback value count mismatch)") if diverged \
+                else ("reproduced", msg[:600])
         else:
             out[tname] = ("not_reproduced", "")
     return out
